@@ -38,9 +38,9 @@ type c1Case struct {
 	Mod modspec.Mod `json:"mod"`
 	// Sib: a second module (required through a replace directive) whose package is generated in the same run; it has its own go
 	// directive and module path
-	Sib *modspec.Mod `json:"sib,omitempty"`
-	Gens     []c1Gen     `json:"gens"`
-	Features []string    `json:"features"`
+	Sib      *modspec.Mod `json:"sib,omitempty"`
+	Gens     []c1Gen      `json:"gens"`
+	Features []string     `json:"features"`
 }
 
 var c1RefPool = []string{
@@ -137,7 +137,24 @@ func genC01(t *rapid.T) c1Case {
 					feats["import"] = true
 					pieces = append(pieces, script.Piece{Kind: "t", Text: body, Refs: refs})
 				}
-				pieces = append(pieces, script.Piece{Kind: "block", Text: text})
+				// a generator may render one declaration with several Render calls: cut the text at arbitrary places (inside
+				// literals, comments, between operands); the file must be the same as for the text rendered at once
+				ncuts := rapid.SampledFrom([]int{0, 0, 1, 2, 3}).Draw(t, "ncuts")
+				rs := []rune(text)
+				var cuts []int
+				for ci := 0; ci < ncuts && len(rs) > 2; ci++ {
+					cuts = append(cuts, rapid.IntRange(1, len(rs)-1).Draw(t, "cut"))
+				}
+				sort.Ints(cuts)
+				prev := 0
+				for _, cu := range cuts {
+					if cu > prev {
+						pieces = append(pieces, script.Piece{Kind: "block", Text: string(rs[prev:cu])})
+						prev = cu
+						feats["declaration-in-several-renders"] = true
+					}
+				}
+				pieces = append(pieces, script.Piece{Kind: "block", Text: string(rs[prev:])})
 			}
 			g.Pieces[tk.pkg+"."+tk.typ] = pieces
 		}
